@@ -311,6 +311,19 @@ def c06_extra(ctx):
         rep = V.run_handler_scenario(sd, 12)
         for v in rep["violations"][:2]:
             ctx.violation("handler access path: " + v["what"][:600], dict(engine="V", seed=sd, script=v.get("script")))
+    # nu commands inside scripts: .cat / .head see only the script's context unless another one is named
+    pr = V.nu_scope_probe()
+    ctx.coverage["nu_scope_probe"] = {k: pr.get(k) for k in ("n_out", "content", "out_ctx")}
+    if pr.get("error"):
+        ctx.violation("nu scope probe: " + pr["error"], dict(engine="V", probe="nu_scope_probe", theorem_or_correspondence="engine V nu scope probe"), no_input=True)
+    else:
+        want = f"{pr['b']}|{pr['b']}|{pr['a']}"
+        if pr["n_out"] != 1 or pr["triggers"] != [pr["go_b"]]:
+            ctx.violation(f"a handler registered in context B was triggered {pr['n_out']} times by one `go` in A and one in B (expected once, by B's)",
+                          dict(engine="V", probe="nu_scope_probe", result=str(pr)[:500]))
+        elif pr["content"] != want or pr["out_ctx"] != [pr["b"]]:
+            ctx.violation(f"inside a script running for context B: `.cat` saw contexts / `.head t` / `.head t --context A` = {pr['content']} "
+                          f"(expected {want}); output landed in {pr['out_ctx']}", dict(engine="V", probe="nu_scope_probe", result=str(pr)[:500]))
     if foreign:
         pass
     elif len(r["delivered"]) < 2:
